@@ -27,6 +27,17 @@ MARKS = {"reg": ".registered", "unreg": ".unregistered"}
 SENT_NS = 978307200 * 10 ** 9          # 2001-01-01: sentinel mtime planted on the identifier file
 CANON = re.compile(r"^[0-9a-f]{8}-[0-9a-f]{4}-[0-9a-f]{4}-[0-9a-f]{4}-[0-9a-f]{12}\Z")
 HEX32 = re.compile(r"^[0-9a-fA-F]{32}\Z")
+UPPER = re.compile(r"^[0-9A-F]{8}-[0-9A-F]{4}-[0-9A-F]{4}-[0-9A-F]{4}-[0-9A-F]{12}\Z")
+
+
+def v4ify(text):
+    """The identifier a canonical-looking UUID text denotes once its version / variant bits say
+    'random UUID' (bit surgery on the text; the harness' own abstraction, not the code's)."""
+    return text[:14] + "4" + text[15:19] + "89ab"[int(text[19], 16) & 3] + text[20:]
+
+
+def is_v4(text):
+    return text[14] == "4" and text[19] in "89ab"
 
 
 class HarnessError(Exception):
@@ -62,6 +73,8 @@ class World(object):
                     "rhsm": str(uuid.UUID(int=rng.getrandbits(128), version=4))}
         self.tok = dict((v, k) for k, v in self.ids.items())
         self.upper = rng.random() < 0.5
+        self.rhsm_kind = case["init"]["rhsm"]
+        self.rhsm_raw = self.spell_rhsm(self.rhsm_kind, rng)
         self.idfile = os.path.join(self.dirs["main"], "machine-id")
         self.rhsm_calls = 0
         init = case["init"]
@@ -93,9 +106,31 @@ class World(object):
                 text = ""
             with open(self.idfile, "w") as fh:
                 fh.write(text)
-        self.patch(init["rhsm"])
+        self.patch(init["rhsm"] != "none")
 
     # -- concretisation ---------------------------------------------------
+    def spell_rhsm(self, kind, rng):
+        """How the host spells its subscription identity (the identifier it denotes is ids['rhsm'])."""
+        c = self.ids["rhsm"]
+        if kind in ("none", "canonical"):
+            return c
+        if kind == "unhyphenated":
+            h = c.replace("-", "")
+            return h.upper() if rng.random() < 0.5 else h
+        if kind == "upper":
+            return c.upper()
+        if kind == "nonv4":
+            # time-based / name-based look: another version nibble, sometimes another variant too
+            raw = c[:14] + rng.choice("1235") + c[15:]
+            if rng.random() < 0.5:
+                raw = raw[:19] + "cdef"[int(c[19], 16) & 3] + raw[20:]
+            if v4ify(raw) != c or is_v4(raw):
+                raise HarnessError("R4: %r is not a non-v4 spelling of %r" % (raw, c))
+            return raw
+        if kind == "spaced":
+            return rng.choice([" ", "\t", "  "]) + c + rng.choice([" ", "  ", " \n", "\t"])
+        raise HarnessError("subscription identity kind %r" % kind)
+
     def marker(self, d, m):
         return os.path.join(self.dirs[d], MARKS[m])
 
@@ -164,7 +199,7 @@ class World(object):
 
             def read(cls):
                 world.rhsm_calls += 1
-                return FakeCert(world.ids["rhsm"])
+                return FakeCert(world.rhsm_raw)
         else:
             # both ways the real _get_rhsm_identity finds nothing: no rhsm module / unreadable certificate
             cert_auth.RHSM_CONFIG = None if self.upper else object()
@@ -199,12 +234,17 @@ class World(object):
             if raw == "":
                 idf = {"form": "empty", "id": "none"}
             elif CANON.match(raw):
-                idf = {"form": "canonical", "id": self.token(raw)}
+                idf = {"form": "canonical", "id": self.token(raw)} if is_v4(raw) else \
+                      {"form": "nonv4", "id": self.token(v4ify(raw))}
             elif raw.endswith("\n") and CANON.match(raw[:-1]) and raw.count("\n") == 1:
                 idf = {"form": "newline", "id": self.token(raw[:-1])}
             elif HEX32.match(raw):
                 h = raw.lower()
                 idf = {"form": "legacy", "id": self.token("-".join((h[:8], h[8:12], h[12:16], h[16:20], h[20:])))}
+            elif UPPER.match(raw):
+                idf = {"form": "upper", "id": self.token(raw.lower())}
+            elif CANON.match(raw.strip()) and is_v4(raw.strip()):
+                idf = {"form": "spaced", "id": self.token(raw.strip())}
             else:
                 idf = {"form": "other", "id": "none"}
         st["idf"] = idf
@@ -298,7 +338,7 @@ def main():
             got = dict((k, init[k]) for k in ("dir", "reg", "unreg", "idf"))
             if want != got:
                 raise HarnessError("R4: initial state %r concretised to %r" % (want, got))
-            init["rhsm"] = bool(case["init"]["rhsm"])
+            init["rhsm"] = case["init"]["rhsm"]
             init["raw"] = raw
             events = [w.do(s) for s in case["steps"]]
             stats["rhsm_calls"] = stats.get("rhsm_calls", 0) + w.rhsm_calls
